@@ -102,16 +102,19 @@ def ref(filepath):
 
 REF_VISIT = '''
 def ref(group, func, level=None):
-    def _visititems(node, func, result=None):
+    def _visititems(node, path, func, result=None):
         children = node.get_children()
         if children:
-            for child in children:
-                result[child.obj.name] = func(child.obj.name, child.obj)
-                _visititems(child, func, result)
+            for key, child in zip(node.obj.keys(), children):
+                if child.obj is None:
+                    continue
+                name = path.rstrip("/") + "/" + key
+                result[name] = func(name, child.obj)
+                _visititems(child, name, func, result)
         return result
 
     root = TreeNode(group, level=level)
-    return _visititems(root, func, {})
+    return _visititems(root, group.name, func, {})
 '''
 
 REF_URI = '''
